@@ -358,6 +358,10 @@ def c20 (fn : String) (a : List String) : Option String := do
   | "o.c20.dur", [raw, obs] => some (Spec.C20Dur.holdsDur (← decStr? raw) (← decDRes? obs))
   | "c20.ts", [_name, zone, raw] => some (encTRes (Time.parseTimestamp (← decZone? zone) (← decStr? raw)))
   | "c20.gen", [_loc, _machine, _eff, zone, raw] => some (encTRes (Time.parseTimestamp (← decZone? zone) (← decStr? raw)))
+  | "c06.cell", [_name, zone, raw] =>
+    some (match Time.parseTimestamp (← decZone? zone) (← decStr? raw) with
+      | .ok _ => "all" | .err => "none" | .unmodelled => "unmodelled")
+  | "o.c06.cell", [_name, _zone, _raw, obs] => some (if obs == "all" || obs == "none" then "holds" else "FAILS")
   | "c20.emitts", [_name, zone, t, n] =>
     some (encStr (Rfc3339.format (← decZone? zone) (← decInt? t) (← decNat? n)))
   | "c20.emitz", [_loc, _machine, _eff, zone, raw] =>
@@ -429,6 +433,8 @@ def c18 (fn : String) (a : List String) : Option String := do
     if obs.endsWith "REMOVED" then some "FAILS" else
     let after ← decStrList? obs
     some (if Spec.C18.holdsPrep im (sortStrs fs) after then "holds" else "FAILS")
+  | "c18.prep", [_files, _imports, _dir] => some "err"   -- os.Remove refuses a non-empty directory: the run fails, nothing nested is touched
+  | "o.c18.prep", [_files, _imports, _dir, obs] => some (if obs == "err" then "holds" else "FAILS")
   | "c18.clean", [p] => some (encStr (Path.clean (← decStr? p)))
   | "c04.rewrite", [p, rules] =>
     let rs ← (if rules.isEmpty then some [] else (rules.splitOn ";").mapM fun kv =>
@@ -517,6 +523,7 @@ def dispatch (line : String) : String :=
       else if fn.startsWith "doc." || fn.startsWith "o.doc." then doc fn args
       else if fn.startsWith "c17." || fn.startsWith "o.c17." || fn.startsWith "pg." || fn.startsWith "o.pg." || fn.startsWith "c10." || fn.startsWith "o.c10." || fn.startsWith "c09." || fn.startsWith "o.c09." || fn.startsWith "c19." || fn.startsWith "o.c19." || fn.startsWith "c02." || fn.startsWith "o.c02." || fn.startsWith "c15." || fn.startsWith "o.c15." || fn.startsWith "c08." || fn.startsWith "o.c08." then pg fn args
       else if fn.startsWith "c18." || fn.startsWith "o.c18." || fn.startsWith "c04.rewrite" || fn.startsWith "o.c04.rewrite" then c18 fn args
+      else if fn.startsWith "c06.cell" || fn.startsWith "o.c06.cell" then c20 fn args
       else if fn.startsWith "c04." || fn.startsWith "o.c04." || fn.startsWith "c16." || fn.startsWith "o.c16." || fn.startsWith "c06." || fn.startsWith "o.c06." then c04 fn args
       else if fn.startsWith "tp." || fn.startsWith "o.tp." || fn.startsWith "c01." || fn.startsWith "o.c01." || fn.startsWith "w.c01." then tp fn args
       else none
